@@ -25,6 +25,7 @@ func init() {
 			"J4 routing: a notification is applied only to an object that find/getFork/getChunk returned non-nil; getFork's index fast path is bounds-checked and its name search compares the whole remainder, " +
 			"J5 the key encoders hand out the key unencoded only where the dominating guards exclude '%' and '/' (search calls with constant needles; byte-wise predicate helpers are folded per byte value), everything else they hand out is the result of url.PathEscape. " +
 			"J4 identity: a fork taken from Node.forks by its parsed number is returned only after its own name was compared with the requested one; J1 samples include call ids that begin with fork/chnk. " +
+			"J6 a call's qualified name used as a file-name prefix for removal ends with the separator. " +
 			"NOT decided: injectivity of nested mixed array/map fork numbering (arithmetic on run-time lengths), collisions between -u<uniq> directories.",
 		Assumptions: append([]string{"net/url.PathEscape escapes '%', '/', and every byte outside the RFC 3986 unreserved/sub-delims set (evaluated from the Go standard library the checker is built with)"}, commonAssumptions...),
 	}
